@@ -313,8 +313,18 @@ func (d *driver) runOne(ri int, r *runSpec, kf *knownFile) error {
 	close(jobs)
 	wg.Wait()
 	d.mu.Lock()
-	d.agg.runs = append(d.agg.runs, map[string]any{"engine": r.engine, "race": r.race, "netns": r.netns,
-		"batches": batches, "cases_per_batch": cases, "wall_s": time.Since(t0).Seconds()})
+	rec := map[string]any{"engine": r.engine, "race": r.race, "netns": r.netns,
+		"batches": batches, "cases_per_batch": cases, "wall_s": time.Since(t0).Seconds()}
+	if r.goarch != "" {
+		rec["goarch"] = r.goarch
+	}
+	if len(r.buildFlags) > 0 {
+		rec["build_flags"] = r.buildFlags
+	}
+	if r.background {
+		rec["beside_the_other_runs"] = true
+	}
+	d.agg.runs = append(d.agg.runs, rec)
 	d.mu.Unlock()
 	return nil
 }
